@@ -639,6 +639,17 @@ class Interp:
             c = self.st.list_cell(base.loc)
             i = self.num(key)
             n = z3.Length(c.term)
+            si = z3.simplify(i)
+            if z3.is_int_value(si) and si.as_long() == 0 and z3.is_app_of(c.term, z3.Z3_OP_SEQ_CONCAT) \
+                    and z3.is_app_of(c.term.arg(0), z3.Z3_OP_SEQ_UNIT):
+                rest = [c.term.arg(j) for j in range(1, c.term.num_args())]
+                self.st.set_list_term(base.loc, z3.Concat(z3.Unit(self.term_of(v, c.kind)), *rest))
+                return
+            for (ht, hi, hp, he, hs) in self.st.ghost.get('_index_hints', []):
+                # the contract's pre-state names the split  term == P ++ [old] ++ S  with len(P) == i
+                if ht.eq(c.term) and hi.eq(i):
+                    self.st.set_list_term(base.loc, z3.Concat(hp, z3.Unit(self.term_of(v, c.kind)), hs))
+                    return
             if not self.branch(z3.And(i >= 0, i < n)):
                 # negative indices unsupported in stores except -1
                 raise Unsupported('list store with index possibly out of range')
@@ -896,6 +907,9 @@ class Interp:
             t, k = self.seq_term(base)
             i = self.num(key)
             n = z3.Length(t)
+            for (ht, hi, hp, he, hs) in self.st.ghost.get('_index_hints', []):
+                if ht.eq(t) and hi.eq(i):
+                    return k.wrap(he)
             if self.spec_mode:
                 return k.wrap(t[z3.If(i < 0, n + i, i)])
             si = z3.simplify(i)
@@ -1207,7 +1221,10 @@ class Interp:
                 self.st = cur
         if isinstance(e.func, ast.Name) and e.func.id == 'super':
             return VBuiltin('super')
-        f = self.eval(e.func, fr)
+        if self.spec_mode and isinstance(e.func, ast.Name) and e.func.id in self.spec_funcs:
+            f = VBuiltin('spec:' + e.func.id)       # specification functions win over program locals of the same name
+        else:
+            f = self.eval(e.func, fr)
         args = []
         for a in e.args:
             if isinstance(a, ast.Starred):
@@ -1418,7 +1435,16 @@ class Interp:
                 c = self.st.list_cell(recv.loc)
         if name == 'append':
             ensure_kind(args[0])
-            xt = self.term_of(args[0], c.kind)
+            try:
+                xt = self.term_of(args[0], c.kind)
+            except Unsupported as e:
+                # a value of another type is put into a container the contract types homogeneously: reported as a
+                # failed obligation (not a checker error); the list content is havocked afterwards
+                self.oblige('container_elements_have_the_contracted_type', False, kind='callsite',
+                            note='append of %r into a list of %s: %s' % (args[0], c.kind, e))
+                self.st.obligations[-1].props = list(getattr(self, 'type_obligation_props', ['C03', 'C10', 'C01']))
+                self.st.set_list_term(recv.loc, z3.Const(sym.fresh_name('mixed'), c.term.sort()))
+                return NONE
             if c.maxlen is not None:
                 n = z3.Length(c.term)
                 if self.branch(n >= c.maxlen):
@@ -1955,6 +1981,27 @@ def _segment_methods():
                 return
             # the rest of the loop: ordinary iterations until the segment ends
             return self.stmt_While(s, fr)
+        if isinstance(s, ast.Try) and not any(_contains(x, target) for x in s.body):
+            # suspended in the else / except / finally part: the protected body is already behind us
+            try:
+                if any(_contains(x, target) for x in s.orelse):
+                    self.resume_block(s.orelse, fr, target, resume)
+                elif any(_contains(x, target) for x in s.finalbody):
+                    self.resume_block(s.finalbody, fr, target, resume)
+                    return
+                else:
+                    for h in s.handlers:
+                        if any(_contains(x, target) for x in h.body):
+                            self.resume_block(h.body, fr, target, resume)
+                            break
+            except (PyRaise, ReturnSignal, BreakSignal, ContinueSignal):
+                if s.finalbody:
+                    self.exec_block(s.finalbody, fr)
+                raise
+            else:
+                if s.finalbody:
+                    self.exec_block(s.finalbody, fr)
+            return
         if isinstance(s, ast.Try):
             try:
                 try:
